@@ -77,6 +77,15 @@ CHECKS = {
         'that same array restricted to known labels (unlabeled points are absent); every constructor parameter reaches the shared core '
         'with the caller\'s value. Numeric equality of the two fits follows from "same function, same arguments" and is not separately decided.'),
   note=TB),
+ 'C09': dict(
+  technique='static analysis: axis agreement of order-statistic selections (ndim inferred from producers), sibling rule over all np.cov sites, symbolic matrix-algebra evaluation of Covariance.fit and RCA\'s inverse square root, structural rules on RCA centring and LFDA ordering / embedding table',
+  text=('Decides ONLY structural necessary conditions of the closed forms: every rank selection after partition/argpartition/sort/'
+        'argsort picks on the ordered axis; every np.cov call on samples-by-features data passes rowvar=False; Covariance.fit stores L '
+        'with L^T L = exactly one (pseudo-)inversion of cov(X); RCA centres each chunk with the mean of exactly its own rows, keeps only '
+        'rows with chunk != -1, and _inv_sqrtm is V Diag(w^-1/2) V^T; LFDA keeps eigenvectors by decreasing eigenvalue, stores vecs.T '
+        'and handles exactly the documented embedding_type values. Equality of the learned matrix with the documented formula on any '
+        'dataset (scatter algebra, whitening identity, singular covariances) is NOT decided. Known finding: LFDA local-scale axis.'),
+  note=TB),
  'C17': dict(
   technique='static analysis: ownership/aliasing abstract interpretation (FRESH: view- vs copy-producing operations) of every in-place write construct, who-may-call / value-flow rule for random generators and seeded components, typestate (read-before-assign of fitted attributes, conditional assignment), transitive effect sets of query methods, closure free-variable freshness',
   text=('Decides over all call histories, for all 17 estimators: no global numpy.random/random call and every draw is on '
@@ -112,7 +121,7 @@ CHECKS = {
 
 _PENDING = 'check not built yet in this revision of /verif (see DESIGN.md section 9 build order); nothing is claimed for it'
 NOT_APPLICABLE = {p: _PENDING for p in
-  ['C09','C10','C11','C12','C13','C14','C15','C19']}
+  ['C10','C11','C12','C13','C14','C15','C19']}
 NOT_APPLICABLE['C16'] = ('optimality of a cut-off over a labelled multiset of distances with ties is a property of runtime '
                          'values; no structural necessary condition of it exists that a sound static rule can name without '
                          'also firing on correct tie-aware rewrites; its parameter-validation sentence is checked as C06(7)')
